@@ -323,10 +323,24 @@ func (c *Ctx) paramObj(fd *ast.FuncDecl, i int) types.Object {
 }
 
 func (c *Ctx) paramByName(fd *ast.FuncDecl, name string) types.Object {
+	var ids []*ast.Ident
 	for _, f := range fd.Type.Params.List {
 		for _, id := range f.Names {
 			if id.Name == name {
 				return c.Info.Defs[id]
+			}
+			ids = append(ids, id)
+		}
+	}
+	// renamed since the pinned tree: the parameter at the position that name had there
+	key := fd.Name.Name
+	if fd.Recv != nil && len(fd.Recv.List) == 1 {
+		key = recvTypeName(fd.Recv.List[0].Type) + "." + key
+	}
+	if base, ok := baselineParams[key]; ok && len(base) == len(ids) {
+		for i, n := range base {
+			if n == name {
+				return c.Info.Defs[ids[i]]
 			}
 		}
 	}
